@@ -226,4 +226,48 @@ def bodyFails : List Item → Bool
 def dropEmpty (items : List Item) : List Item :=
   items.filter (fun i => match i with | .chunk bs => !bs.isEmpty | .err => true)
 
+/-! ### the same loop as an event machine
+
+One `step` per answer of `poll_capacity`; the state is what the suspended task holds
+(anchor "chunk / reserved capacity": `cur` = unsent remainder of the current chunk).
+`runSteps = sendBody` is proved in `Proofs/H2.lean`; invariants are stated over all answer
+sequences. -/
+
+structure LoopSt where
+  /-- DATA frames handed to `h2` so far, in order -/
+  frames : List Frame
+  /-- unsent remainder of the current chunk (dispatcher.rs `chunk`) -/
+  cur : Bytes
+  /-- body items not yet polled -/
+  items : List Item
+  /-- `some e`: `handle_response` has returned -/
+  fin : Option End
+  deriving Repr
+
+/-- poll the body until it yields a non-empty chunk, fails, or ends -/
+def pull (frames : List Frame) : List Item → LoopSt
+  | [] => ⟨frames ++ [⟨[], true⟩], [], [], some .done⟩
+  | .err :: _ => ⟨frames, [], [], some .bodyErr⟩
+  | .chunk bs :: items => if bs.isEmpty then pull frames items else ⟨frames, bs, items, none⟩
+
+/-- one answer of `poll_capacity` -/
+def step (s : LoopSt) (a : CapAns) : LoopSt :=
+  match s.fin with
+  | some _ => s
+  | none =>
+    match a with
+    | .closed => { s with fin := some .closed }
+    | .err => { s with fin := some .sendErr }
+    | .cap c =>
+      let n := min s.cur.length c
+      let frames := s.frames ++ [⟨s.cur.take n, false⟩]
+      if (s.cur.drop n).isEmpty then pull frames s.items
+      else { s with frames := frames, cur := s.cur.drop n }
+
+def runSteps (items : List Item) (sched : List CapAns) : LoopSt :=
+  sched.foldl step (pull [] items)
+
+/-- a task still waiting when the answers run out waits for ever -/
+def LoopSt.end_ (s : LoopSt) : End := s.fin.getD .stalled
+
 end ActixModel.H2
